@@ -20,7 +20,7 @@ RULE = (
     "Scalar, Array and FixedArray (list/tuple/ndarray of dtype float64, float32, int32, object; lengths 0..4), FractionScalar, FractionValue, Fraction, "
     "Curve, UnitSystem and unrelated objects (None, str, int, float, tuple, list, dict, object()), drawn from small "
     "alphabets so that equal twins occur; for every ordered pair ==/!= never raise, a==a, (a==b)==(b==a), "
-    "(a!=b)==not(a==b), a==b => hash(a)==hash(b) when both hash. Non-trivial = (a) u!=v; (b) pair of different "
+    "(a!=b)==not(a==b), a==b => hash(a)==hash(b) when both hash. Every product / quotient / square of two table units whose unit string spells a table unit of another quantity type is ordered against that unit: TypeError. Non-trivial = (a) u!=v; (b) pair of different "
     "classes, or an equal pair of distinct objects; distinct key = (a) (class, qt, u, v, relation), (b) (class a, class b, equal?)."
 )
 ASSUMPTIONS = [
@@ -544,6 +544,48 @@ def run_shard(spec, ctx):
                 return test
 
             core.hunt(ctx, t_cross, seed + 3, 500 if not thorough else 15000)
+
+            if spec["i"] == 0:
+                # a product / quotient / square whose unit *reads* like a table unit of another quantity type
+                # (m*m against area's m2, m/s against velocity's m/s): the unit string does not make the types equal
+                from bv import grammar
+
+                n_twins = 0
+                for T, info in sorted(db.unit_to_unit_info.items()):
+                    if info.quantity_type not in od.cats:
+                        continue
+                    try:
+                        comps = list(grammar.parse_unit_string(T).items())
+                    except grammar.ParseError:
+                        continue
+                    if any(u not in db.unit_to_unit_info or db.unit_to_unit_info[u].quantity_type not in od.cats for u, _e in comps):
+                        continue
+                    exps = sorted(e for _u, e in comps)
+                    if len(comps) == 1 and exps == [2]:
+                        (u1, _), op = comps[0], "*"
+                        u2 = u1
+                    elif len(comps) == 2 and exps == [1, 1]:
+                        (u1, _), (u2, _), op = comps[0], comps[1], "*"
+                    elif len(comps) == 2 and exps == [-1, 1]:
+                        u1 = [u for u, e in comps if e == 1][0]
+                        u2 = [u for u, e in comps if e == -1][0]
+                        op = "/"
+                    else:
+                        continue
+                    leaf = lambda u, x: [x, u, od.cats[db.unit_to_unit_info[u].quantity_type][0]]
+                    dspec = ["derived", op, leaf(u1, 2.0), leaf(u2, 3.0)]
+                    d = od.build_any("Scalar", dspec)
+                    if d.GetUnit() != T or d.quantity_type == info.quantity_type:
+                        ctx.cls("unit_twin_skipped")
+                        continue
+                    case = {"cls": "Scalar", "a": dspec, "b": ["simple", 10.0, T, od.cats[info.quantity_type][0]]}
+                    try:
+                        od.cross(case)
+                    except core.Viol as v:
+                        ctx.record(v.key + ":derived_reads_like_a_table_unit", case, v.msg)
+                    n_twins += 1
+                ctx.cls("derived_that_reads_like_a_table_unit_of_another_type", n_twins)
+                ctx.exhaustive["table units that a product / quotient / square of two table units spells"] = "all %d" % n_twins
         else:
             pl = Pool(ctx)
 
